@@ -164,6 +164,28 @@ def r92(ctx) -> None:
               'result of authenticate()/authorize()'
     R.check(ok, g, g.node, 'sieve _login: session on the authenticated '
             'identity', why)
+    login_dominated(ctx, R, f, 'IMAP')
+    login_dominated(ctx, R, g, 'sieve')
+
+
+def login_dominated(ctx, R, f, label: str) -> None:
+    """Every normal return of a _login coroutine passed authenticate()."""
+    cfg = cfg_of(f)
+    auth = cfg.find(lambda n: any(call_name(c) == 'authenticate'
+                                  for c in n.calls()))
+    rets = cfg.find(lambda n: isinstance(n.stmt, ast.Return))
+    bad = [r.lineno for r in rets
+           if not cfg.dominated_by(r, auth, labels=NORMAL)]
+    if cfg.exit in cfg.reach([cfg.entry], avoid=auth, labels=NORMAL,
+                             first_labels=NORMAL) and not rets:
+        bad.append(f.node.lineno)
+    R.check(bool(auth) and not bad, f, f.node,
+            f'{label} _login: every return passed login.authenticate(creds)',
+            f'return at line(s) {bad} is reachable without calling '
+            f'login.authenticate(): a session is handed out for credentials '
+            f'that were never verified (e.g. a per-connection session cache '
+            f'keyed by authcid: AUTHENTICATE ok, UNAUTHENTICATE, '
+            f'AUTHENTICATE with a wrong password -> OK)')
 
 
 def login_classes(ctx):
@@ -358,8 +380,26 @@ def r94(ctx) -> None:
                     None if None in vals else 'depends on unprivileged '
                     'roles')
             if None in table.values():
-                R.undecided(f, r.stmt, key, f'guard `{txt(g)}` not '
-                            f'interpretable over (differs, privileged)')
+                # a comparison whose operands are TRANSFORMED identities is
+                # not an identity comparison
+                transformed = []
+                for cmpn in [x for x in ast.walk(g)
+                             if isinstance(x, ast.Compare)]:
+                    for side in [cmpn.left] + cmpn.comparators:
+                        for v in resolve_local(f, side):
+                            if isinstance(v, ast.Call) and (
+                                    names_in(v) & (ids | {authn, authz})):
+                                transformed.append(txt(v))
+                if transformed:
+                    R.fail(f, r.stmt, key,
+                           f'the identities are compared after '
+                           f'{transformed}: two different account names '
+                           f'that normalise to the same string are treated '
+                           f'as the same user, so a role-less look-alike '
+                           f'account is authorised as the other user')
+                else:
+                    R.undecided(f, r.stmt, key, f'guard `{txt(g)}` not '
+                                f'interpretable over (differs, privileged)')
                 continue
             want = {(A, P): (A and not P)
                     for A, P in itertools.product((False, True), repeat=2)}
@@ -393,7 +433,10 @@ def r95(ctx) -> None:
     cfg = cfg_of(f)
     tests = [t for t in cfg.nodes if t.kind == 'test'
              and 'LOGINDISABLED' in txt(t.stmt.test)
-             and 'capability' in txt(t.stmt.test)]
+             and any(a.replace(' ', '') in (
+                 "b'LOGINDISABLED'inself.capability",
+                 "b'LOGINDISABLED'inself.capability.string")
+                 for a, _ in guard_atoms(t.stmt.test))]
     creds = cfg.find(lambda n: any(call_name(c) in ('PlainCredentials',
                                                     'do_authenticate',
                                                     '_login')
